@@ -3,7 +3,7 @@
 P=$(realpath $1); W=/tmp/rp-$$; OUT=/tmp/rpout-$$; mkdir -p $OUT
 git -C /repo worktree add -q --detach $W HEAD; trap 'git -C /repo worktree remove --force $W >/dev/null 2>&1; rm -rf $OUT' EXIT
 git -C $W apply $P/patch.diff
-f=$(VERIF_REPO=$W VERIF_OUT=$OUT /verif/bin/vcheck run $2 | grep -m1 '^VIOLATION' | sed 's/.*replay=//')
+f=$(VERIF_REPO=$W VERIF_OUT=$OUT ${VCHECK:-/verif/bin/vcheck} run $2 | grep -m1 '^VIOLATION' | sed 's/.*replay=//')
 echo "first replay file: $f"
-echo "--- replay on the changed tree:"; VERIF_REPO=$W /verif/bin/vcheck replay $f | tail -6; echo "exit=$?"
-echo "--- replay on the unchanged tree:"; /verif/bin/vcheck replay $f | tail -3; echo "exit=${PIPESTATUS[0]}"
+echo "--- replay on the changed tree:"; VERIF_REPO=$W ${VCHECK:-/verif/bin/vcheck} replay $f | tail -6; echo "exit=$?"
+echo "--- replay on the unchanged tree:"; ${VCHECK:-/verif/bin/vcheck} replay $f | tail -3; echo "exit=${PIPESTATUS[0]}"
